@@ -8,6 +8,7 @@ Part "ik"  : bases {I, B1 (moved there), BS (seed-generic, constructed there)} x
                    pose) equal || T_top t_i - T_bot b_i || to 1e-9, with the plate-fixed points read ONCE at the neutral
                    pose before any re-spin (and rotated by the oracle for re-spun platforms)
    rigid_motion    IK(G T_top, G T_bot) returns the same lengths (1e-9)
+   base_placement  the platform stands where it was put (constructor base / move): bottom pose = B, top pose = B * neutral
    respin_points   after spinCustom both plate poses are unchanged and the plate-fixed points are the old ones rotated
                    about the plate z axis - for a re-spin at the neutral pose (pose 0) and for a re-spin applied while
                    the platform stands at an in-workspace pose of a 27-pose sub-grid
@@ -56,11 +57,13 @@ def plan(tier):
     if tier == "thorough":
         gids = [g.gid for g in splib.family()]
         spins = list(splib.SPINS)
+        sp = {g: spins for g in gids}
     else:
         gids = list(splib.QUICK_GIDS)
-        spins = ["s0", "s0.4"]
-    ik_blocks = [(g, b, s) for g in gids for b in ("I", "B1", "BS") for s in spins]
-    fk_blocks = [(g, b, s) for g in gids for b in ("I", "B1") for s in spins]
+        spins = ["s0", "s0.4 / s-60d alternating by geometry"]
+        sp = {g: ["s0", "s0.4" if k % 2 == 0 else "s-60d"] for k, g in enumerate(gids)}     # both argument forms of spinCustom
+    ik_blocks = [(g, b, s) for g in gids for b in ("I", "B1", "BS") for s in sp[g]]
+    fk_blocks = [(g, b, s) for g in gids for b in ("I", "B1") for s in sp[g]]
     return gids, spins, ik_blocks, fk_blocks
 
 
@@ -106,6 +109,9 @@ def eval_ik(P, case, out):
         with splib.quiet():
             L3, v = s3.IK(tm(Tt.copy()), tm(P.B.copy()))
         out.append(("ik_distance", float(np.abs(np.array(L3, float).reshape(6) - want).max()), TOL_IK, {"protect": False, "valid": bool(v)}))
+    if i == 0:
+        r = max(np.abs(P.B_neutral - P.B).max(), np.abs(P.Tt_neutral - Tt).max())
+        out.append(("base_placement", float(r), TOL_IK, None))
     if P.spin != "s0":
         if i == 0:
             r = max(np.abs(P.bl_read - P.bl).max(), np.abs(P.tl_read - P.tl).max(),
